@@ -195,8 +195,8 @@ fn check_enum(i: u64, st: &mut Stats) -> Result<(), String> {
     Ok(())
 }
 
-fn desc_enum(i: u64) -> Value {
-    json!({"ops": format!("{:?}", enum_decode(Tier::Quick, i))})
+fn desc_enum(t: Tier, i: u64) -> Value {
+    json!({"ops": format!("{:?}", enum_decode(t, i))})
 }
 
 // ---- generated ---------------------------------------------------------------------------------------
@@ -247,7 +247,7 @@ pub fn property() -> Property {
                 name: "random-long-histories",
                 rule: "see property rule",
                 cases: (600_000, 2_000_000),
-                fuzz_decode: None,
+                fuzz_decode: Some(crate::fuzzdec::c15_case),
                 strategy: rand_strategy,
                 check: check_rand,
                 required_classes: &["has-substitution", "run>=200-under-max>=200"],
